@@ -22,6 +22,8 @@ pub enum Signal {
     /// p(n / scale), coefficients in increasing power
     Poly { coefs: Vec<f64>, scale: f64 },
     Bump { at: f64, sigma: f64 },
+    /// q((n - centre) / scale), coefficients in increasing power
+    LocalPoly { coefs: Vec<f64>, centre: f64, scale: f64 },
 }
 
 #[inline]
@@ -57,6 +59,14 @@ impl Signal {
                 s
             }
             Signal::Bump { at, sigma } => (-0.5 * ((n as f64 - at) / sigma).powi(2)).exp(),
+            Signal::LocalPoly { coefs, centre, scale } => {
+                let v = (n as f64 - centre) / scale;
+                let mut s = 0.0;
+                for c in coefs.iter().rev() {
+                    s = s * v + c;
+                }
+                s
+            }
         }
     }
     /// value rounded to f32 (so that f32 and f64 instances see identical samples)
